@@ -116,7 +116,8 @@ def splitScript (ts : List String) : List (List String) :=
 partial def parseWOp (ts : List String) : Option WOp :=
   -- `gget` / `ggetmut` / `gins` / `grem`: the same operations through the generic storage traits — same model ops
   let ts := match ts with
-    | h :: rest => if ["gget", "ggetmut", "gins", "grem", "lget", "lgetmut"].contains h then (h.drop 1).toString :: rest else ts
+    | h :: rest => if ["gget", "ggetmut", "gins", "grem", "lget", "lgetmut"].contains h then (h.drop 1).toString :: rest
+                   else if h == "ldrain2" then "rem" :: rest else ts
     | [] => ts
   match ts with
   | ["reg", k, p] => do
